@@ -414,7 +414,9 @@ def oracle_a(case):
 # chained transformations (type "C"): x -> t1 = x.transform(l1) -> t2 = t1.transform(l2) [-> t3]
 # ----------------------------------------------------------------------------------------------
 C_CLS_COQ = {"Scale": "cScale", "Shift": "cShift", "SoftplusH": "cSoftplusH", "SigmoidLH": "cSigmoidLH"}
-DEP_CHAIN = bool(__import__("os").environ.get("LV_C14_DEP_CHAIN"))   # see notes/C14.md: fails on the unchanged tree
+# chained transformations through the deprecated GraphBuilder.transform: part of the default check since the
+# repair of _transform_back (/repo commit b548a17); LV_C14_DEP_CHAIN=0 switches the stratum off
+DEP_CHAIN = __import__("os").environ.get("LV_C14_DEP_CHAIN", "1") != "0"
 
 
 def chain_names(k):
@@ -567,8 +569,12 @@ def oracle_c(case):
             want.append(b.forward(want[-1]))
         for nm, got, w in zip(names, obs["pre"], reversed(want)):
             if not close(got, w):
+                hint = ""
+                if case["path"] == "dep":
+                    hint = (" [deprecated path: if the variable is frozen at its old value this is the as-found RawNode variant of "
+                            "_transform_back, theorem C14_dep_chain_rawnode_refuted]")
                 return (f"outside a model: after assigning {names[-1]} = {float(want[0])} and updating the chain, the variable {nm} = "
-                        f"{float(got)} is not the image {float(w)} of the new variable under the composed forwards")
+                        f"{float(got)} is not the image {float(w)} of the new variable under the composed forwards" + hint)
     if "raised" in obs:
         return f"chained transformation / assigning failed: {obs['raised']}"
     fl = obs["flags"]
@@ -691,7 +697,7 @@ def gen_c_case(rnd, fam, nlinks, nsteps, first=None, kinds=None, path="var"):
         param_vars = [k for k in param_vars if k != "loc"]
     steps = []
     for j in range(nsteps):
-        st = {"t": gen_t(rnd, dom, False) if dom == "pos" else dy(rnd, -2, 2, 8)}
+        st = {"t": gen_t(rnd, dom, False) if dom == "pos" else (dy(rnd, -1, 1, 8) if path == "dep" else dy(rnd, -2, 2, 8))}
         if j >= 1:
             newp = gen_params(rnd, fam, nonpos_loc=True)
             chg = {k: newp[k] for k in param_vars}
@@ -737,8 +743,16 @@ def gen_c_cases(ctx, rnd):
         for _ in range(n_rand):
             cases.append(gen_c_case(rnd, fam, rnd.choice([2, 2, 3]), nsteps))
     if DEP_CHAIN:
-        for fam in ("Gamma", "Normal"):
-            cases.append(gen_c_case(rnd, fam, 2, nsteps, kinds=["inst", "inst"], path="dep"))
+        # deprecated GraphBuilder.transform applied repeatedly (float32 inside: moderate values, no Beta)
+        dfixed = [("Gamma", 2, "Exp", ["inst", "inst"]), ("Normal", 2, "Shift", ["cls", "inst"]),
+                  ("HalfNormal", 2, None, ["default", "inst"]), ("InverseGamma", 3, "Softplus", ["inst", "cls", "inst"])]
+        for fam, n, first, kinds in dfixed:
+            c = gen_c_case(frnd, fam, n, nsteps, first=first, kinds=kinds, path="dep")
+            c["corpus"] = True
+            cases.append(c)
+        dfams = [f for f in FAMS if f != "Beta"]
+        for i in range(3 if ctx.quick else 28):
+            cases.append(gen_c_case(rnd, dfams[i % len(dfams)], rnd.choice([2, 2, 3]), nsteps, path="dep"))
     return cases
 
 
@@ -765,6 +779,11 @@ def c_goals(case) -> list[str]:
         g(f"(nth_val (chain_up {D} {ls} {P0} {A0} {t0}) {j})", s["vals"][k - 1 - j])
     if case.get("child"):
         g(f"(chain_model_lp {oth} {D} {ls} {P0} {A0} {t0})", s["mlp"])
+    if case["path"] == "dep" and "pre" in obs:
+        # outside a model, right after the second GraphBuilder.transform: pins the Proxy variant of _transform_back
+        tp = rlit(F(case["steps"][0]["t"]))
+        for j in range(k):
+            g(f"(nth_val (chain_up_v {D} Proxy true {ls} {P0} {A0} {rlit(F(case['v0']))} {P0} {A0} {tp}) {j})", obs["pre"][k - 1 - j])
     for i, s in enumerate(obs["steps"]):
         ls, Pk, Ak = chain_terms(case, i)
         t = rlit(F(case["steps"][i]["t"]))
@@ -1133,6 +1152,7 @@ def generate(ctx):
             c["obs"] = run_c_case(c)
             kinds = "+".join(l["kind"] + ("VarArgs" if l.get("arg_vars") else "") for l in c["links"])
             ctx.hist(f"C chain of {len(c['links'])} links")
+            ctx.hist("C chain through " + ("GraphBuilder.transform (deprecated)" if c["path"] == "dep" else "Var.transform"))
             ctx.hist(f"C chain kinds (oldest first) {kinds}")
             ctx.hist(f"C family={c['fam']}")
             if c["links"][0]["kind"] == "inst":
